@@ -3,6 +3,8 @@
 // Seeded random workloads: pool size 1..3, 1..3 clients, 0..3 Messages per client, two submitting threads (a client's Messages
 // all come from one of them, so its submission order is defined), each submitter unregisters a random subset of its clients
 // after its submissions, then the pool is destroyed (Shutdown) - possibly while Messages are still pending or being handled.
+// In half of the executions a third thread shuts the pool down at a random moment (through the object-recycler flush that
+// ~CompleteSetupSystem uses), i.e. concurrently with submissions, handlers and UnregisterClient calls that are waiting.
 // PoolAbs monitor: exactly once, per-client order, never two handlers in one client, never more handlers than pool threads,
 // UnregisterClient returns only when everything submitted was handled, nothing handled that was not submitted;
 // deadlock detector: Unregister / Shutdown that never returns.  Recorded traces are validated by TLC against TPImpl.tla.
@@ -25,7 +27,7 @@ struct Mon {
 static Mon M;
 
 // trace ---------------------------------------------------------------------------------------------------------
-static bool g_record = false; static std::vector<std::string> g_lines;
+static bool g_record = false, g_mute = false; static std::vector<std::string> g_lines;
 static std::map<const void *, int> g_clientId; static std::map<const void *, int> g_threadOfObj;    // Thread* -> pool thread id (1-based)
 static std::map<int, int> g_poolThreadOfTid;     // scheduler thread -> pool thread id
 static thread_local int tl_unregClient = 0;
@@ -40,17 +42,17 @@ static void FlushGroup()
    s += ",\"disp\":["; for (size_t i=0; i<G.disp.size(); i++) {snprintf(b, sizeof(b), "%s[%d,%d]", i?",":"", G.disp[i].first, G.disp[i].second); s += b;} s += "]}";
    g_lines.push_back(s); G.open = false;
 }
-static void Line(const std::string & s) {if (!g_record) return; FlushGroup(); g_lines.push_back(s);}
+static void Line(const std::string & s) {if ((!g_record)||(g_mute)) return; FlushGroup(); g_lines.push_back(s);}
 static void OpenGroup(const std::string & head, bool isFinish, bool early) {FlushGroup(); G.open = true; G.head = head; G.made.clear(); G.disp.clear(); G.promoted = 0; G.notified = 0; G.isFinish = isFinish; G.early = early;}
 
 static int CId(long p) {std::map<const void *, int>::iterator it = g_clientId.find((const void *) p); return (it == g_clientId.end()) ? 0 : it->second;}
 static void ObserveEvent(const vs::Event & e)
 {
    char b[200];
-   if (e.name == "NewThread") {g_threadOfObj[(const void *) e.a[1]] = (int) e.a[0]+1; if (g_record) G.made.push_back((int) e.a[0]+1); return;}
-   if (e.name == "Receive") {g_poolThreadOfTid[e.tid] = (int) e.a[0]+1; if (g_record) {snprintf(b, sizeof(b), "{\"e\":\"Receive\",\"t\":%d,\"c\":%d}", (int) e.a[0]+1, CId(e.a[1])); Line(b);} return;}
+   if (e.name == "NewThread") {g_threadOfObj[(const void *) e.a[1]] = (int) e.a[0]+1; if ((g_record)&&(!g_mute)) G.made.push_back((int) e.a[0]+1); return;}
+   if (e.name == "Receive") {g_poolThreadOfTid[e.tid] = (int) e.a[0]+1; if ((g_record)&&(!g_mute)) {snprintf(b, sizeof(b), "{\"e\":\"Receive\",\"t\":%d,\"c\":%d}", (int) e.a[0]+1, CId(e.a[1])); Line(b);} return;}
    if (e.name == "ShutFlag") M.shutStarted = true;
-   if (!g_record) return;
+   if ((!g_record)||(g_mute)) return;
    if (e.name == "Dispatch") G.disp.push_back(std::make_pair(CId(e.a[0]), (int) e.a[1]+1));
    else if (e.name == "Promote") G.promoted = (int) e.a[1];
    else if (e.name == "NotifyWaiter") G.notified = 1;
@@ -64,7 +66,7 @@ static void ObserveEvent(const vs::Event & e)
 }
 static void ObserveResume(vs::LThread * me, int kind, const void * obj, int)
 {
-   if (!g_record) return;
+   if ((!g_record)||(g_mute)) return;
    char b[100];
    if ((kind == vs::YIELD_WC_WAIT)&&(tl_unregClient > 0)&&(me->threadObj == NULL)) {snprintf(b, sizeof(b), "{\"e\":\"UnregWake\",\"c\":%d}", tl_unregClient); Line(b);}
    else if (kind == vs::YIELD_THREAD_JOIN) {std::map<const void *, int>::iterator it = g_threadOfObj.find(obj); if (it != g_threadOfObj.end()) {snprintf(b, sizeof(b), "{\"e\":\"ShutStop\",\"t\":%d}", it->second); Line(b);}}
@@ -79,35 +81,41 @@ protected:
    {
       // only one logical thread runs at a time, so the monitor's tables need no lock
       if (++M.activeIn[_id] > 1) M.V("two pool threads are inside one client's handler at the same time");
+      if (M.unregReturned[_id-1]) M.V("a client's handler was called after SetThreadPool(NULL) had returned for that client");
       if (++M.totalActive > M.maxActive) M.maxActive = M.totalActive;
       M.handled[_id-1].push_back(msg()->what);
-      if (g_record) {char b[100]; snprintf(b, sizeof(b), "{\"e\":\"Handle\",\"t\":%d,\"c\":%d,\"m\":%u}", g_poolThreadOfTid[vs::tl_id], _id, msg()->what); Line(b);}
+      if ((g_record)&&(!g_mute)) {char b[100]; snprintf(b, sizeof(b), "{\"e\":\"Handle\",\"t\":%d,\"c\":%d,\"m\":%u}", g_poolThreadOfTid[vs::tl_id], _id, msg()->what); Line(b);}
       {static Mutex m; DECLARE_MUTEXGUARD(m);}     // a pre-emption point inside the handler
       M.totalActive--; M.activeIn[_id]--;
    }
 };
 
-struct Plan {int poolSize, nClients; std::vector<int> nMsgs; std::vector<bool> unreg; std::vector<std::pair<int,uint32> > planA, planB;};
-static Plan P; static std::vector<Client *> CS; static ThreadPool * g_tp = NULL; static WaitCondition * g_bDone = NULL;
+struct Plan {bool destroyer; int destroyAfter; int poolSize, nClients; std::vector<int> nMsgs; std::vector<bool> unreg; std::vector<std::pair<int,uint32> > planA, planB;};
+static Plan P; static std::vector<Client *> CS; static ThreadPool * g_tp = NULL; static WaitCondition * g_bDone = NULL; static WaitCondition * g_cDone = NULL;
 
 static void RunPlan(const std::vector<std::pair<int,uint32> > & plan, int parity)
 {
    for (size_t i=0; i<plan.size(); i++) {
       const int c = plan[i].first;
       M.submitted[c].push_back(plan[i].second);
-      if (CS[c]->SendMessageToThreadPool(GetMessageFromPool(plan[i].second)).IsError()) M.V("SendMessageToThreadPool failed for a registered client");
+      if (CS[c]->SendMessageToThreadPool(GetMessageFromPool(plan[i].second)).IsError()) {
+         // refused: legitimate once the pool has been shut down (its clients are detached); the Message does not count as submitted
+         if (M.shutStarted) M.submitted[c].pop_back(); else M.V("SendMessageToThreadPool failed for a registered client");
+      }
       vs::OpBoundary();
    }
    for (int c=parity; c<P.nClients; c+=2) if (P.unreg[c]) {
       tl_unregClient = c+1;
       CS[c]->SetThreadPool(NULL);
       tl_unregClient = 0;
+      if (M.activeIn[c+1] > 0) {char b[160]; snprintf(b, sizeof(b), "SetThreadPool(NULL) returned for client %d while a pool thread is still inside that client's handler", c+1); M.V(b);}
       if ((!M.shutStarted)&&(M.handled[c].size() != M.submitted[c].size())) {char b[160]; snprintf(b, sizeof(b), "UnregisterClient(client %d) returned after %zu of %zu submitted Messages were handled", c+1, M.handled[c].size(), M.submitted[c].size()); M.V(b);}
       M.unregReturned[c] = true;
       vs::OpBoundary();
    }
 }
-static void SubmitterA() {vs::ThreadBegin(); RunPlan(P.planA, 0); (void) g_bDone->Wait(); delete g_tp; g_tp = NULL; vs::ThreadEnd();}
+static void SubmitterA() {vs::ThreadBegin(); RunPlan(P.planA, 0); (void) g_bDone->Wait(); if (P.destroyer) (void) g_cDone->Wait(); delete g_tp; g_tp = NULL; vs::ThreadEnd();}
+static void Destroyer() {vs::ThreadBegin(); for (int k=0; k<P.destroyAfter; k++) vs::OpBoundary(); (void) AbstractObjectRecycler::GlobalFlushAllCachedObjects(); (void) g_cDone->Notify(); vs::ThreadEnd();}
 static void SubmitterB() {vs::ThreadBegin(); RunPlan(P.planB, 1); (void) g_bDone->Notify(); vs::ThreadEnd();}
 
 int main(int argc, char ** argv)
@@ -120,7 +128,7 @@ int main(int argc, char ** argv)
    long execs = 0, violated = 0, stranded = 0, nevents = 0, tracesWritten = 0, traceLines = 0, handledTotal = 0, droppedByShutdown = 0; unsigned long ysteps = 0; std::set<std::string> distinct;
    for (uint32 it=0; it<iters; it++) {
       const uint32 seed = seed0*1000003u+it; std::mt19937 gen(seed*2246822519u+3);
-      P.poolSize = 1+(int)(gen()%3); P.nClients = 1+(int)(gen()%3); P.nMsgs.clear(); P.unreg.clear(); P.planA.clear(); P.planB.clear();
+      P.poolSize = 1+(int)(gen()%3); P.nClients = 1+(int)(gen()%3); P.destroyer = false; P.destroyAfter = 0; P.nMsgs.clear(); P.unreg.clear(); P.planA.clear(); P.planB.clear();
       std::string key; char kb[32]; snprintf(kb, sizeof(kb), "%d/%d:", P.poolSize, P.nClients); key = kb;
       for (int c=0; c<P.nClients; c++) {
          const int n = (int)(gen()%4); P.nMsgs.push_back(n); P.unreg.push_back((gen()%3) != 0);
@@ -134,14 +142,16 @@ int main(int argc, char ** argv)
          std::shuffle(order.begin(), order.end(), gen);
          std::map<int,uint32> next; for (size_t i=0; i<order.size(); i++) {pl[i].first = order[i]; pl[i].second = ++next[order[i]];}
       }
+      P.destroyer = (gen()%2) == 0; P.destroyAfter = (int)(gen()%7); if (P.destroyer) key += "D";
       distinct.insert(key);
-      g_record = (tf != NULL)&&(tracesWritten < (long) ntraces); g_lines.clear(); G.open = false; g_clientId.clear(); g_threadOfObj.clear(); g_poolThreadOfTid.clear();
+      g_mute = false; g_record = (tf != NULL)&&(tracesWritten < (long) ntraces); g_lines.clear(); G.open = false; g_clientId.clear(); g_threadOfObj.clear(); g_poolThreadOfTid.clear();
       vs::Reset(seed, vs::RANDOM); vs::S.onEvent = ObserveEvent; vs::S.onResume = ObserveResume; vs::S.onYield = nullptr; vs::S.stickiness = (int)(gen()%3)*35; vs::S.atomicLocks = g_record;
       M.Reset(P.nClients, P.poolSize);
-      g_tp = new ThreadPool(P.poolSize); WaitCondition bDone; g_bDone = &bDone;
+      g_tp = new ThreadPool(P.poolSize); WaitCondition bDone; g_bDone = &bDone; WaitCondition cDone; g_cDone = &cDone;
       CS.clear(); for (int c=0; c<P.nClients; c++) {Client * cl = new Client(g_tp, c+1); CS.push_back(cl); g_clientId[cl] = c+1;}
       std::vector<std::thread> ths; ths.emplace_back(SubmitterA); vs::WaitRegistered(1); ths.emplace_back(SubmitterB); vs::WaitRegistered(2);
-      const bool ok = vs::RunAllRandom(2);
+      if (P.destroyer) {ths.emplace_back(Destroyer); vs::WaitRegistered(3);}
+      const bool ok = vs::RunAllRandom(ths.size());
       FlushGroup();
       execs++; ysteps += vs::S.steps; nevents += (long) vs::S.events.size();
       if (!ok) {stranded++; M.V(std::string("STRANDED (UnregisterClient or Shutdown never returns):")+vs::S.blockedDesc);}
